@@ -106,6 +106,27 @@ def rules(R, prog):
     K.check_at(R, P + '.K6', G, res, lambda ev: ev.kind == 'call' and (ev.callee() or '').endswith('::erase') and 'm_index' in (ev.recv_path() or ''),
                require=lambda st, ev: any(re.match(r'^G:\w+\.contains\(.*\)=T$', x) for x in st) and an.has_lock(st, 'this->m_lock'),
                key_fn=lambda ev: P + '.K6:RangeLock::unlock(off,len):erase-only-contained', describe=lambda ev: 'only ranges contained in the request are erased', min_sites=1)
+    # ... and the whole requested range is visited: the scan ends only at the end of the index or at the first range beyond r
+    K.check_at(R, P + '.K7', G, res, lambda ev: ev.kind == 'exit',
+               require=lambda st, ev: any(re.match(r'^G:\w+ == this->m_index\.end\(\)=T$', x) for x in st) or
+               any(re.match(r'^G:\w+->offset < \w+\.end\(\)=F$', x) for x in st),
+               key_fn=lambda ev: P + '.K7:RangeLock::unlock(off,len):scan-covers-the-whole-range',
+               describe=lambda ev: 'unlock(offset, length) leaves its scan only at the end of the index or at the first range starting at/after the end of the request (every contained piece is released and its waiters notified)', min_sites=1, what='exit')
+    # all range ends go through the saturating end(): a raw offset + length wraps for ranges reaching the top of the 64-bit space
+    n = 0
+    for g in [g for g in prog.in_file('common/range-lock.h') if (g.rec or '').split('::')[-1] in ('range_t', 'Range', 'RangeLock')]:
+        for i, e in enumerate(g.exprs):
+            if e['k'] == 'binop' and e['op'] == '+':
+                sides = sorted(((g.path(e['l']) or '').split('.')[-1].split('>')[-1], (g.path(e['r']) or '').split('.')[-1].split('>')[-1]))
+                if sides == ['length', 'offset']:
+                    R.violated(P + '.K9', '%s.K9:%s:range-end-only-through-saturating-end()' % (P, g.nname), g.id, g.locl(e['loc']),
+                               'raw %s wraps at 2^64; ranges are compared through end() = sat_add(offset, length)' % g.show(i))
+        n += 1
+    fe = prog.find('RangeLock::range_t::end', required=False) or prog.find('range_t::end', required=False)
+    ends = [g for g in prog.in_file('common/range-lock.h') if g.nname.endswith('range_t::end')]
+    R.require(len(ends) >= 1, 'C18: range_t::end() not found')
+    ok = any(e['k'] == 'call' and strip_targs(e.get('fn') or '').endswith('sat_add') for e in ends[0].exprs)
+    (R.held if ok else R.violated)(P + '.K9', P + '.K9:range_t::end:saturating', ends[0].id, '%s:%d' % (ends[0].file, ends[0].line), 'end() = sat_add(offset, length)')
     # ~Range notifies
     f = prog.find('RangeLock::Range::~Range')
     ok = any(e['k'] == 'call' and strip_targs(e.get('fn') or '') == 'photon::condition_variable::notify_all' and (f.path(e['recv']) or '').endswith('cond') for e in f.exprs)
